@@ -81,6 +81,15 @@ func (H) Generate(rng *simrt.Rand, prop, tier string) (any, simrt.Config) {
 			if rng.Chance(0.1) {
 				l = int64(time.Duration(1+rng.Intn(100)) * time.Second)
 			}
+			// a target whose clock is ahead of the collector's stamps its updates
+			// in the collector's future (negative latency), and a coarse target
+			// clock can hit the collector's reading exactly (zero latency)
+			switch rng.Pick(30, 2, 3) {
+			case 1:
+				l = 0
+			case 2:
+				l = -int64(1 + rng.Intn(5000000))
+			}
 			sc.Compute = append(sc.Compute, Ev{K: "cmp", N: l})
 		}
 	}
